@@ -78,8 +78,7 @@ func (fr *Frame) execCall(cc *ssa.CallCommon, st *State, site ssa.Instruction, d
 			if err != nil {
 				return Value{}, fmt.Errorf("%s:%d: %v", cl.File, cl.Line, err)
 			}
-			vc.instantiateForGoal(t, nil)
-			vc.oblige(st, "oncall", p.Name()+":"+fr.contract.clauseName(cl), t, sitePos(site), cl.Text)
+			vc.obligeHinted(st, "oncall", p.Name()+":"+fr.contract.clauseName(cl), t, nil, sitePos(site), cl.Text)
 		}
 	}
 	fv := fr.val(cc.Value)
@@ -369,8 +368,7 @@ func (fr *Frame) applyContract(c *Contract, names []string, ptypes []types.Type,
 		if fr.parent != nil {
 			nm = funcKey(fr.fn) + ":" + nm
 		}
-		vc.instantiateForGoal(v.C[0], nil)
-		vc.oblige(st, "pre", nm, v.C[0], pos, r.Text)
+		vc.obligeHinted(st, "pre", nm, v.C[0], nil, pos, r.Text)
 	}
 	// frame
 	for _, m := range c.Modifies {
